@@ -33,10 +33,15 @@ func copyItem(item map[string]*types.Item) map[string]*types.Item {
 	return copy
 }
 
-// checkNumbers refuses an attribute value of type N, or a member of a number set, that is no
-// number DynamoDB can hold (see checkNumberKey), at any depth of the values
+// checkNumbers refuses attribute values that are not well formed, at any depth: a value that has
+// no type or more than one, a missing element of a list, NULL given as false, and a value of type N
+// or a member of a number set that is no number DynamoDB can hold (see checkNumberKey)
 func checkNumbers(values map[string]*types.Item) error {
 	for name, value := range values {
+		if value == nil {
+			continue
+		}
+
 		if err := checkNumbersIn(value, name); err != nil {
 			return err
 		}
@@ -46,8 +51,8 @@ func checkNumbers(values map[string]*types.Item) error {
 }
 
 func checkNumbersIn(value *types.Item, name string) error {
-	if value == nil {
-		return nil
+	if err := checkValueType(value, name); err != nil {
+		return err
 	}
 
 	if value.N != nil {
@@ -74,6 +79,33 @@ func checkNumbersIn(value *types.Item, name string) error {
 		if err := checkNumbersIn(member, name); err != nil {
 			return err
 		}
+	}
+
+	return nil
+}
+
+// checkValueType refuses a value that does not have exactly one of the ten data types
+func checkValueType(value *types.Item, name string) error {
+	if value == nil {
+		return fmt.Errorf("%w: supplied AttributeValue is empty, must contain exactly one of the supported datatypes; field %q", ErrInvalidAtrributeValue, name)
+	}
+
+	set := 0
+
+	for _, given := range []bool{value.B != nil, value.BOOL != nil, value.BS != nil, value.L != nil, value.M != nil,
+		value.N != nil, value.NS != nil, value.NULL != nil, value.S != nil, value.SS != nil} {
+		if given {
+			set++
+		}
+	}
+
+	switch {
+	case set == 0:
+		return fmt.Errorf("%w: supplied AttributeValue is empty, must contain exactly one of the supported datatypes; field %q", ErrInvalidAtrributeValue, name)
+	case set > 1:
+		return fmt.Errorf("%w: supplied AttributeValue has more than one datatypes set, must contain exactly one of the supported datatypes; field %q", ErrInvalidAtrributeValue, name)
+	case value.NULL != nil && !*value.NULL:
+		return fmt.Errorf("%w: Null attribute value types must have the value of true; field %q", ErrInvalidAtrributeValue, name)
 	}
 
 	return nil
@@ -198,6 +230,11 @@ func getItemValue(item map[string]*types.Item, field, typ string) (interface{}, 
 	val, ok := item[field]
 	if !ok {
 		return nil, fmt.Errorf("%w; field: %q", errMissingField, field)
+	}
+
+	// a key attribute is given with exactly one data type, the declared one
+	if err := checkValueType(val, field); err != nil {
+		return nil, err
 	}
 
 	goVal, ok := getGoValue(val, typ)
